@@ -187,7 +187,7 @@ def _job(j):
 def run(tier, seed):
     rep = Report(PROP, tier, seed, "exploration")
     D = 7 if tier == "quick" else 9
-    nlat = 14 if tier == "quick" else 20
+    nlat = 20 if tier == "quick" else 24
     rep.rule = (
         "every tile at depths 1..%d from full enumeration vs the 3-D reference (corners, diagonal, areas, nesting, neighbours), both coordinate systems; "
         "single-tile, path-filtered and point-lookup routes for every tile to depth %d and a deterministic deep lattice to depth %d; every tile is non-trivial"
